@@ -94,6 +94,9 @@ func (o *owned) mutate(plausible bool) {
 func ownedCount(st HStep) int {
 	switch st.Kind {
 	case "leaf":
+		if st.X == 2 {
+			return 0 // Eye(n): no slice handed over
+		}
 		if len(st.Shape) == 0 && st.X == 0 {
 			return 0 // TensorOf(float64): nothing to own
 		}
@@ -124,8 +127,16 @@ func genC10(t *rapid.T) C10Case {
 		}
 		tr := rapid.IntRange(0, 2).Draw(t, "tracked") > 0
 		st := HStep{Kind: "leaf", Shape: ref.Cp(s), Tracked: tr}
-		if rapid.IntRange(0, 3).Draw(t, "full") == 0 {
+		if k := rapid.IntRange(0, 11).Draw(t, "ctor"); k <= 2 {
 			st.X = 1 // built by Full(dims, 0.75)
+		} else if k <= 5 {
+			st.X = k - 1 // 2 Eye(n), 3 Zeros, 4 Ones
+			if st.X == 2 {
+				n := rapid.IntRange(1, 3).Draw(t, "eyen")
+				st.Shape, s = []int{n, n}, []int{n, n}
+			}
+			st.Tracked = rapid.IntRange(0, 3).Draw(t, "ctortracked") == 0
+			tr = st.Tracked
 		} else {
 			st.Vals = prog.DrawValsMode(t, ref.Prod(s), len(m.e), "std")
 		}
@@ -239,10 +250,22 @@ func runC10(c C10Case, mutate bool) (*c10Run, *Failure) {
 			}
 			var x tensor.Tensor
 			var err error
-			if st.X == 1 {
+			if st.X == 2 {
+				if len(st.Shape) != 2 || st.Shape[0] != st.Shape[1] {
+					return nil, nil
+				}
+				x, err = tensor.Eye(st.Shape[0], lib.Conf(st.Tracked))
+			} else if st.X == 1 || st.X == 3 || st.X == 4 {
 				dims := ref.Cp(st.Shape)
-				x, err = tensor.Full(dims, 0.75, lib.Conf(st.Tracked))
-				own = append(own, &owned{ints: dims, result: len(pool), op: "Full"})
+				switch st.X {
+				case 1:
+					x, err = tensor.Full(dims, 0.75, lib.Conf(st.Tracked))
+				case 3:
+					x, err = tensor.Zeros(dims, lib.Conf(st.Tracked))
+				default:
+					x, err = tensor.Ones(dims, lib.Conf(st.Tracked))
+				}
+				own = append(own, &owned{ints: dims, result: len(pool), op: "Full/Zeros/Ones"})
 			} else {
 				if len(st.Vals) != ref.Prod(st.Shape) {
 					return nil, nil
